@@ -44,7 +44,7 @@ PRESETS = {   # generator-side belief only (used to pick sensible bare numbers);
 
 
 def plan(tier):
-    return {"runs": 640} if tier == "quick" else {"runs": 10000000, "budget": 1200.0}
+    return {"runs": 640} if tier == "quick" else {"runs": 40000, "budget": 1200.0}
 
 
 # ---------------------------------------------------------------------------------------------------------------
